@@ -70,6 +70,131 @@ def builtin_sweep(rep, rng, n):
                                      "generated expression differs from docPred although the implementation agrees")
 
 
+def aggregate_sweep(rep, rng, n):
+    """the whole-column built-in `unique_values_eq`: real check / Column / SeriesSchema / Index verdicts against Lean's
+    `uniqueValuesEq` (documented set equality on the non-null values), including empty and all-null columns"""
+    import warnings
+    import pandas as pd
+    import pandera as pa
+    cases = []
+    for _ in range(n):
+        dtype = rng.choice(["int64", "float64", "str", "datetime"])
+        pool = A.POOL[dtype]
+        vs = rng.sample(pool, rng.randint(0, 3))
+        shape = rng.choice(["empty", "all-null", "exact", "exact", "random", "random"])
+        if shape == "empty":
+            vals = []
+        elif shape == "all-null":
+            vals = [A.NULL] * rng.randint(1, 3) if A.can_null(dtype) else []
+        elif shape == "exact":
+            vals = [rng.choice(vs) for _ in range(rng.randint(1, 5))] + list(vs) if vs else []
+            rng.shuffle(vals)
+        else:
+            vals = [rng.choice(pool) for _ in range(rng.randint(1, 5))]
+        if A.can_null(dtype) and vals and rng.random() < 0.3:
+            vals.insert(rng.randrange(len(vals) + 1), A.NULL)
+        cases.append({"mode": "aggregate", "dtype": dtype, "vs": vs, "vals": vals})
+    ans = run_driver("C01", [{"mode": "aggregate", "vs": c["vs"], "vals": c["vals"]} for c in cases])
+    for c, a in zip(cases, ans):
+        if "error" in a:
+            rep.correspondence_break(c, "driver: " + a["error"])
+            continue
+        want = a["uniqueValuesEq"]
+        chk = pa.Check.unique_values_eq([A.to_py(v) for v in c["vs"]])
+        ser = A.series_of(c["vals"], c["dtype"], name="a")
+        entries = {
+            "Column": lambda: pa.DataFrameSchema({"a": pa.Column(None, chk, nullable=True)}).validate(pd.DataFrame({"a": ser})),
+            "SeriesSchema": lambda: pa.SeriesSchema(None, chk, nullable=True, name="a").validate(ser),
+            "Index": lambda: pa.Index(None, chk, nullable=True).validate(pd.DataFrame(index=pd.Index(ser.values))),
+        }
+        for entry, fn in entries.items():
+            with warnings.catch_warnings():
+                warnings.simplefilter("ignore")
+                try:
+                    fn()
+                    got = True
+                except (pa.errors.SchemaError, pa.errors.SchemaErrors):
+                    got = False
+                except Exception as e:  # noqa: BLE001
+                    rep.count(f"aggregate:{entry}:crash:{type(e).__name__}")
+                    continue
+            rep.evaluations += 1
+            rep.count(f"aggregate:{entry}:{'accept' if got else 'reject'}")
+            if got != want:
+                rep.property_failure(dict(c, entry=entry),
+                                     f"unique_values_eq through {entry}: implementation {'accepts' if got else 'rejects'}, "
+                                     f"the documented set equality is {want}")
+
+
+NULLABLE_REPRS = [
+    ("float64", [1.0, float("nan")]), ("float32", [1.0, float("nan")]), ("object", ["x", None]),
+    ("datetime64[ns]", ["2020-01-01", None]), ("timedelta64[ns]", [1, None]),
+    ("Int8", [1, None]), ("Int16", [1, None]), ("Int32", [1, None]), ("Int64", [1, None]),
+    ("UInt8", [1, None]), ("UInt16", [1, None]), ("UInt32", [1, None]), ("UInt64", [1, None]),
+    ("boolean", [True, None]), ("Float32", [1.0, None]), ("Float64", [1.0, None]), ("string", ["x", None]),
+    ("int64[pyarrow]", [1, None]), ("bool[pyarrow]", [True, None]), ("string[pyarrow]", ["x", None]),
+    ("double[pyarrow]", [1.0, None]),
+]
+
+
+def nullability_sweep(rep):
+    """every physical representation that can hold a missing value: `nullable=False` rejects a column with a missing
+    value (reason SERIES_CONTAINS_NULLS), `nullable=True` accepts it; Column, SeriesSchema and Index; with and
+    without a declared dtype; eager and lazy"""
+    import warnings
+    import pandas as pd
+    import pandera as pa
+    for rep_dtype, raw in NULLABLE_REPRS:
+        try:
+            ser = pd.Series(pd.to_datetime(raw) if rep_dtype.startswith("datetime") else
+                            pd.to_timedelta(raw, unit="D") if rep_dtype.startswith("timedelta") else raw, dtype=rep_dtype, name="a")
+        except Exception as e:  # noqa: BLE001
+            rep.count(f"nullability:unbuildable:{rep_dtype}")
+            continue
+        if not ser.isna().any():
+            rep.count(f"nullability:no-missing-value:{rep_dtype}")
+            continue
+        for declared in (None, rep_dtype):
+            if declared is not None:
+                # the declared name must denote the representation at hand (pandas and pandera read "string[pyarrow]"
+                # differently, for one): the null-free column has to be accepted, otherwise nothing is said about nulls
+                try:
+                    with warnings.catch_warnings():
+                        warnings.simplefilter("ignore")
+                        pa.SeriesSchema(declared, name="a").validate(ser.dropna())
+                except Exception:  # noqa: BLE001
+                    rep.count(f"nullability:declared-name-is-another-type:{rep_dtype}")
+                    continue
+            for nullable in (False, True):
+                for lazy in (False, True):
+                    entries = {
+                        "Column": lambda: pa.DataFrameSchema({"a": pa.Column(declared, nullable=nullable)}).validate(
+                            pd.DataFrame({"a": ser}), lazy=lazy),
+                        "SeriesSchema": lambda: pa.SeriesSchema(declared, nullable=nullable, name="a").validate(ser, lazy=lazy),
+                        "Index": lambda: pa.Index(declared, nullable=nullable).validate(
+                            pd.DataFrame({"v": range(len(ser))}, index=pd.Index(ser.array)), lazy=lazy),
+                    }
+                    for entry, fn in entries.items():
+                        case = {"mode": "nullability", "representation": rep_dtype, "declared": declared,
+                                "nullable": nullable, "lazy": lazy, "entry": entry}
+                        with warnings.catch_warnings():
+                            warnings.simplefilter("ignore")
+                            try:
+                                fn()
+                                got = "accept"
+                            except (pa.errors.SchemaError, pa.errors.SchemaErrors):
+                                got = "reject"
+                            except Exception as e:  # noqa: BLE001
+                                got = "crash:" + type(e).__name__
+                        rep.evaluations += 1
+                        rep.count(f"nullability:{entry}:{got.split(':')[0]}")
+                        if got.startswith("crash"):
+                            continue
+                        if (got == "accept") != nullable:
+                            rep.property_failure(case, f"{entry} over a {rep_dtype} column holding a missing value, "
+                                                       f"nullable={nullable}: implementation {got}s")
+
+
 def n_cases(tier):
     return 1500 if tier == "quick" else 40000
 
@@ -81,11 +206,18 @@ def run(tier, replay=None):
     rep.audit["modules"] = MODULES
     if replay:
         cases = [json.loads(open(replay).read())["case"]]
+        if cases[0].get("mode") in ("aggregate", "nullability", "builtin") or "b" in cases[0]:
+            aggregate_sweep(rep, rng_for(PROP, "aggregate"), 150)
+            nullability_sweep(rep)
+            builtin_sweep(rep, rng_for(PROP, "builtin"), 400)
+            return rep.finish(rule="replay of the sweeps (deterministic under VERIF_SEED)")
     else:
         rng = rng_for(PROP)
         cases = corpus_cases(PROP) + [P.gen_case(rng) for _ in range(n_cases(tier))]
     if not replay:
         builtin_sweep(rep, rng_for(PROP, "builtin"), 400 if tier == "quick" else 8000)
+        aggregate_sweep(rep, rng_for(PROP, "aggregate"), 150 if tier == "quick" else 3000)
+        nullability_sweep(rep)
     impl = [impl_observe(c) for c in cases]
     ans = run_driver("C01", [dict(c, depth="schemaAndData") for c in cases])
     for c, o, a in zip(cases, impl, ans):
